@@ -541,7 +541,18 @@ class PropBase:
                 self.breaks.append(('model', tail_error(out)))
         self.model_ok = model_ok
         try:
-            self.correspondence()
+            try:
+                self.correspondence()
+            except Broken:
+                raise
+            except (subprocess.TimeoutExpired, RuntimeError, OSError) as e:
+                # infrastructure trouble (a hung or killed helper process): not evidence about the
+                # property; retry once from scratch before giving up loudly
+                self.notes.append('correspondence run aborted by %r; retried once' % (e,))
+                self.rng = random.Random(self.seed)
+                self.cov = {k: v for k, v in self.cov.items() if k in ('generated', 'obligations', 'discharged', 'theorems',
+                                                                     'axioms_reported_by_Print_Assumptions', 'coqchk', 'coqchk_axioms')}
+                self.correspondence()
         except Broken as b:
             self.breaks.append((b.kind, b.detail))
         # findings & search
